@@ -63,6 +63,9 @@ DIRECTED = [
     # a sign applies to the next primary only: what follows the signed operand belongs to the enclosing expression
     ("enum Level { LOW = 3, MID = 2 * -LOW + 1, HIGH, TOP = 10 - -LOW - 1, LAST, SGN = -LOW * 2 - 1, PLS = 7 - +LOW * 2, "
      "NST = 100 / -(LOW - 8) + 1, END };", ["LOW", "MID", "HIGH", "TOP", "LAST", "SGN", "PLS", "NST", "END"]),
+    # an explicit zero (and an explicit value equal to the implicit one) after other values: "= 0" is a value like any other
+    ("enum Zero { Z_HIGH = 5, Z_NONE = 0, Z_LOW, Z_MID, Z_SAME = 3, Z_NEG = -3, Z_ZERO2 = 0, Z_ONE, Z_EXPR = Z_ONE - 1, Z_LAST };",
+     ["Z_HIGH", "Z_NONE", "Z_LOW", "Z_MID", "Z_SAME", "Z_NEG", "Z_ZERO2", "Z_ONE", "Z_EXPR", "Z_LAST"]),
 ]
 
 
